@@ -353,7 +353,7 @@ impl Campaign for C06 {
     }
 
     fn rule(&self) -> String {
-        "one run = one generated control-flow-heavy program (conditionals, else-chains, && || ^^ !! ??, nested expressions with the three apply forms, counter-bounded reapply loops of 0..40 iterations, side-effect blocks, sub-expression sequences, lists) in which every identifier occurrence is distinct, executed once per host truth assignment: all 2^k assignments for k <= 6 steering identifiers, else all-false, all-true and 30 seeded masks; on SimpleGarnishData or BasicGarnishData (per run). After every step: pending operands relative to the current frame never negative (I1), exactly one at EndExpression (I2), (pc, call depth) -> (pending operands, input depth) is a function across all visits and all assignments (I3), every re-entry of a reapply loop head finds operand and input stacks as deep as at its first entry (I4), and End restores the initial depths (I5). distinct = distinct (program, assignments) hash; non-trivial = more than three distinct (pc, call depth) points visited".to_string()
+        "one run = one generated control-flow-heavy program (conditionals, else-chains, && || ^^ !! ??, nested expressions with the three apply forms, counter-bounded reapply loops of 0..40 iterations, side-effect blocks, sub-expression sequences, lists, partial application called with an argument / with the empty apply, lookups in concatenations; half of the programs draw on the full language; a twelfth are reapply loops at the top level; printed fully bracketed or with minimal brackets) in which every identifier occurrence is distinct, executed once per host truth assignment: all 2^k assignments for k <= 6 steering identifiers, else all-false, all-true and 30 seeded masks; on SimpleGarnishData or BasicGarnishData (per run). After every step: pending operands relative to the current frame never negative (I1), exactly one at EndExpression (I2), (pc, call depth) -> (pending operands, input depth) is a function across all visits and all assignments (I3), every re-entry of a reapply loop head finds operand and input stacks as deep as at its first entry (I4), and End restores the initial depths (I5). distinct = distinct (program, assignments) hash; non-trivial = more than three distinct (pc, call depth) points visited".to_string()
     }
 
     fn components(&self) -> Value {
